@@ -135,6 +135,14 @@ def r10a(ctx, run):
                   len_loads[0].file, len_loads[0].ln,
                   "the slice length compared by the bounds check is read from `%s` but the data pointer from `%s`: behind two or more pointers the check compares the index "
                   "with something that is not the slice's length" % (li[0] or li[1][:60], di[0] or di[1][:60]))
+        # ... and at the same TIME: no user code (the index expression) is compiled between the two reads of the header, or it could replace the slice
+        # after its length was taken (`s[shrink(^mut s)]` checked against the old length, read through the new data pointer)
+        L, D = len_loads[0], data_loads[0]
+        between = [c for c in cs if short(c.callee) in ("compile_expr", "compile_expr_with_args", "compile_and_cast", "compile_and_cast_with_args") and "FunctionCompiler" in c.callee
+                   and ((fn.can_reach(L.bb, c.bb) and fn.can_reach(c.bb, D.bb) and c.bb not in (L.bb, D.bb)) or (fn.can_reach(D.bb, c.bb) and fn.can_reach(c.bb, L.bb) and c.bb not in (L.bb, D.bb)))]
+        run.check(not between, L.site(), "no expression is compiled between the read of the slice's length and the read of its data pointer", FCE, "index-header-read-at-once", L.file, L.ln,
+                  "the slice's length (line %d) and its data pointer (line %d) are read on either side of %s (line %d): an index expression that changes the slice makes the bounds check "
+                  "compare against a length that no longer belongs to the data that is accessed" % (L.ln, D.ln, short(between[0].callee) if between else "", between[0].ln if between else 0))
     else:
         run.finding(FCE, "index-len-same-header", fn.file, lo, "cannot find the slice header loads of the Expr::Index arm (length loads %d, data-pointer loads %d)" % (len(len_loads), len(data_loads)))
     # accesses dominated by the check
